@@ -108,8 +108,8 @@ fn mk_frame(id: u64, notify: u8, tag: u64) -> Vec<u8> {
     f
 }
 
-/// (id, tag) of a request frame
-fn parse_req(f: &[u8]) -> Result<(u64, u64), String> {
+/// (id, tag, notify byte) of a request frame
+fn parse_req(f: &[u8]) -> Result<(u64, u64, u8), String> {
     if f.len() < 48 { return Err("short request".into()); }
     let id = u64::from_le_bytes(f[16..24].try_into().unwrap());
     let ql = u64::from_le_bytes(f[24..32].try_into().unwrap()) as usize;
@@ -117,7 +117,7 @@ fn parse_req(f: &[u8]) -> Result<(u64, u64), String> {
     if f.len() != 48 + ql + bl { return Err("request length".into()); }
     let v: Value = serde_json::from_slice(&f[48 + ql..]).map_err(|e| e.to_string())?;
     let tag = v.get("tag").and_then(|t| t.as_u64()).ok_or("no tag")?;
-    Ok((id, tag))
+    Ok((id, tag, f[11]))
 }
 
 enum Conn { Tcp(TcpStream), Ws(Box<tokio_tungstenite::WebSocketStream<tokio::net::TcpStream>>) }
@@ -155,11 +155,12 @@ impl Conn {
 }
 
 /// the scripted server's knowledge: which request (by caller tag) carries which id
-struct Server { conn: Conn, seen: HashMap<u64, u64>, ids: Vec<u64>, err: Option<String> }
+struct Server { conn: Conn, seen: HashMap<u64, u64>, ids: Vec<u64>, notifies: Vec<u64>, err: Option<String> }
 impl Server {
     fn read_one(&mut self) -> bool {
         match self.conn.read().and_then(|f| parse_req(&f)) {
-            Ok((id, tag)) => { self.seen.insert(tag, id); self.ids.push(id); true }
+            Ok((_, tag, n)) if n != 0 => { self.notifies.push(tag); true }   // a forwarded notify: nothing to answer
+            Ok((id, tag, _)) => { self.seen.insert(tag, id); self.ids.push(id); true }
             Err(e) => { self.err.get_or_insert(format!("server-read:{e}")); false }
         }
     }
@@ -179,6 +180,7 @@ fn outcome(r: Result<Value, RepeError>) -> String {
     match r {
         Ok(v) => match v.get("tag").and_then(|t| t.as_u64()) { Some(t) => format!("g{t:x}"), None => "b2".into() },
         Err(RepeError::Io(e)) if e.kind() == std::io::ErrorKind::TimedOut => "t".into(),
+        Err(RepeError::Io(e)) if e.kind() == std::io::ErrorKind::AlreadyExists => "r".into(),
         Err(RepeError::Io(_)) => "x".into(),
         Err(RepeError::ResponseIdMismatch { .. }) => "b1".into(),
         Err(_) => "b3".into(),
@@ -197,7 +199,7 @@ fn setup(kind: &str) -> Result<Setup, String> {
             let (s, _) = l.accept().map_err(|e| e.to_string())?;
             s.set_nodelay(true).ok();
             s.set_read_timeout(Some(WAIT)).ok();
-            Ok(Setup { cl, srv: Server { conn: Conn::Tcp(s), seen: HashMap::new(), ids: vec![], err: None }, sub: None })
+            Ok(Setup { cl, srv: Server { conn: Conn::Tcp(s), seen: HashMap::new(), ids: vec![], notifies: vec![], err: None }, sub: None })
         }
         _ => {
             let (cl, ws) = rt().block_on(async {
@@ -214,7 +216,7 @@ fn setup(kind: &str) -> Result<Setup, String> {
                 Ok::<_, String>((cl, ws))
             })?;
             let sub = cl.subscribe_notifies().map_err(|_| "already subscribed".to_string())?;
-            Ok(Setup { cl: Cl::Ws(cl), srv: Server { conn: Conn::Ws(Box::new(ws)), seen: HashMap::new(), ids: vec![], err: None }, sub: Some(sub) })
+            Ok(Setup { cl: Cl::Ws(cl), srv: Server { conn: Conn::Ws(Box::new(ws)), seen: HashMap::new(), ids: vec![], notifies: vec![], err: None }, sub: Some(sub) })
         }
     }
 }
@@ -249,16 +251,33 @@ fn spawn_caller(cl: &Cl, c: u64, tmo: Duration, tx: mpsc::Sender<(u64, String)>,
     }
 }
 
+/// caller `c` forwards a prebuilt message with a caller-supplied id (AsyncClient only)
+fn spawn_forward(cl: &Cl, c: u64, id: u64, notify: bool, tmo: Duration, tx: mpsc::Sender<(u64, String)>) -> Handle {
+    let Cl::Async(client) = cl.clone() else { panic!("forward_message exists on AsyncClient only") };
+    let msg = repe::Message::builder().id(id).notify(notify).query_str(&format!("/f{c}")).body_json(&json!({"tag": c})).expect("body").build();
+    let jh = rt().spawn(WHO.scope(c, async move {
+        match client.forward_message_with_timeout(&msg, tmo).await {
+            Ok(Some(m)) => outcome(m.json_body::<Value>()),
+            Ok(None) => "n".into(),
+            Err(e) => outcome(Err(e)),
+        }
+    }));
+    let ah = jh.abort_handle();
+    rt().spawn(async move { let r = match jh.await { Ok(s) => s, Err(e) if e.is_cancelled() => "c".into(), Err(_) => "b5".into() }; let _ = tx.send((c, r)); });
+    Handle::Task(ah)
+}
+
 // ---------------------------------------------------------------- schedules
 
 #[derive(Clone, Debug)]
-enum Step { R(u64), W(u64), T(u64), C(u64), D, Reply(u64, u64), Unknown(u64, u64), Notify(u64, u64), NotifyRaw(u64, u64) }
+enum Step { R(u64), W(u64), T(u64), C(u64), D, F(u64, u64), Fn(u64), Reply(u64, u64), Unknown(u64, u64), Notify(u64, u64), NotifyRaw(u64, u64) }
 
 fn hx(s: &str) -> u64 { u64::from_str_radix(s, 16).expect("hex") }
 fn parse_step(s: &str) -> Step {
     let t: Vec<&str> = s.split(':').collect();
     match t[0] {
         "R" => Step::R(hx(t[1])), "W" => Step::W(hx(t[1])), "T" => Step::T(hx(t[1])), "C" => Step::C(hx(t[1])), "D" => Step::D,
+        "F" => Step::F(hx(t[1]), hx(t[2])), "Fn" => Step::Fn(hx(t[1])),
         "r" => Step::Reply(hx(t[1]), hx(t[2])), "u" => Step::Unknown(hx(t[1]), hx(t[2])),
         "n" => Step::Notify(hx(t[1]), hx(t[2])), "N" => Step::NotifyRaw(hx(t[1]), hx(t[2])),
         _ => panic!("bad step"),
@@ -267,6 +286,7 @@ fn parse_step(s: &str) -> Step {
 fn show_step(s: &Step) -> String {
     match s {
         Step::R(c) => format!("R:{c:x}"), Step::W(c) => format!("W:{c:x}"), Step::T(c) => format!("T:{c:x}"), Step::C(c) => format!("C:{c:x}"), Step::D => "D".into(),
+        Step::F(c, i) => format!("F:{c:x}:{i:x}"), Step::Fn(c) => format!("Fn:{c:x}"),
         Step::Reply(k, v) => format!("r:{k:x}:{v:x}"), Step::Unknown(i, v) => format!("u:{i:x}:{v:x}"),
         Step::Notify(k, v) => format!("n:{k:x}:{v:x}"), Step::NotifyRaw(i, v) => format!("N:{i:x}:{v:x}"),
     }
@@ -307,11 +327,29 @@ fn probe_run(kind: &str, cl: &Cl, srv: &mut Server, gate: &Gate, sched: &[Step],
     macro_rules! need { ($e:expr, $what:expr) => { if !$e { gate.problem($what.to_string()); return; } } }
     srv.send(sentinel()); sent += 1;
     need!(gate.wait_any(&[(a, sent)], WAIT).is_some(), "reader-not-at-first-frame");
-    for st in sched {
+    for (i, st) in sched.iter().enumerate() {
         match st {
             Step::R(c) => {
                 handles.insert(*c, spawn_caller(cl, *c, tmo_of(*c), tx.clone(), None));
-                need!(gate.wait_any(&[((Actor::Caller(*c), "after_register"), 1)], WAIT).is_some(), format!("no-register:{c}"));
+                // registered (parked after the insert) or refused (the call has already returned)
+                let t0 = Instant::now(); let mut ok = false;
+                while t0.elapsed() < WAIT {
+                    if gate.wait_any(&[((Actor::Caller(*c), "after_register"), 1)], Duration::from_millis(2)).is_some() { ok = true; break; }
+                    while let Ok((k, o)) = rx.try_recv() { outs.entry(k).or_insert(o); }
+                    if outs.contains_key(c) { ok = true; break; }
+                }
+                need!(ok, format!("no-register:{c}"));
+            }
+            Step::F(c, id) => {
+                handles.insert(*c, spawn_forward(cl, *c, *id, false, tmo_of(*c), tx.clone()));
+                // accepted: the next step writes it (the server reads the request); refused: it has returned
+                if !matches!(sched.get(i + 1), Some(Step::W(k)) if k == c) {
+                    need!(pump(rx, outs, |o| o.contains_key(c), WAIT), format!("no-outcome-after-forward:{c}"));
+                }
+            }
+            Step::Fn(c) => {
+                handles.insert(*c, spawn_forward(cl, *c, 0x7000 + *c, true, LONG, tx.clone()));
+                need!(pump(rx, outs, |o| o.contains_key(c), WAIT), format!("no-outcome-after-forward-notify:{c}"));
             }
             Step::W(c) => {
                 gate.release((Actor::Caller(*c), "after_register"));
@@ -516,6 +554,7 @@ fn probe_script(rng: &mut Rng, kind: &str, n: u64) -> Vec<Step> {
             Step::D => flush(&mut matched, &mut fin),
             Step::Reply(k, _) => { flush(&mut matched, &mut fin); let k = *k as usize; nrep[k] += 1; if pending[k] { pending[k] = false; matched = Some(k); } }
             Step::Unknown(..) | Step::Notify(..) | Step::NotifyRaw(..) => { flush(&mut matched, &mut fin); v += 1; }
+            Step::F(..) | Step::Fn(..) => {}
         }
         s.push(st);
     }
@@ -526,6 +565,46 @@ fn probe_script(rng: &mut Rng, kind: &str, n: u64) -> Vec<Step> {
     }
     for c in 0..n_us { if desig[c] && !fin[c] { s.push(Step::T(c as u64)); fin[c] = true; } }
     s
+}
+
+/// AsyncClient: n0 counter calls in flight (ids 1..n0 in registration order), then
+/// forward_message calls with (a) an in-flight id, (b) a free id, (c) a free id that the counter
+/// reaches next (the next counter call is refused, the one after it is fine), (d) a notify
+/// message, (e) the id of a forward that is itself in flight; then replies in a shuffled order.
+/// Returns (total number of callers, schedule).
+fn fwd_script(rng: &mut Rng, n0: u64) -> (u64, Vec<Step>) {
+    let mut s: Vec<Step> = vec![];
+    let mut order: Vec<u64> = (0..n0).collect(); shuffle(rng, &mut order);
+    let mut unwritten: Vec<u64> = vec![];
+    for c in &order { s.push(Step::R(*c)); if rng.chance(2, 3) { s.push(Step::W(*c)); } else { unwritten.push(*c); } }
+    for c in unwritten { s.push(Step::W(c)); }
+    let mut next_id = n0 + 1; let mut c = n0;
+    let mut written: Vec<u64> = (0..n0).collect();
+    let mut fwd_ids: Vec<u64> = vec![];          // ids of accepted forwards (all still in flight)
+    let nf = rng.range(1, 5);
+    for j in 0..nf {
+        let class = if j == 0 { rng.below(3) } else { rng.below(5) };
+        match class {
+            0 => { s.push(Step::F(c, rng.range(1, n0))); c += 1; }
+            1 => { let id = 1000 + 16 * c + rng.below(16); s.push(Step::F(c, id)); s.push(Step::W(c)); written.push(c); fwd_ids.push(id); c += 1; }
+            2 => {
+                s.push(Step::F(c, next_id)); s.push(Step::W(c)); written.push(c); fwd_ids.push(next_id); c += 1;
+                s.push(Step::R(c)); next_id += 1; c += 1;                       // refused: its id is pending
+                if rng.chance(2, 3) { s.push(Step::R(c)); s.push(Step::W(c)); written.push(c); next_id += 1; c += 1; }
+            }
+            3 => { s.push(Step::Fn(c)); c += 1; }
+            _ => { if let Some(id) = fwd_ids.last() { s.push(Step::F(c, *id)); c += 1; } else { s.push(Step::F(c, rng.range(1, n0))); c += 1; } }
+        }
+    }
+    shuffle(rng, &mut written);
+    if rng.chance(1, 5) { let keep = rng.below(written.len() as u64) as usize; written.truncate(keep); }
+    let mut v = 0u64;
+    for (i, k) in written.iter().enumerate() {
+        if rng.chance(1, 5) { v += 1; s.push(Step::Unknown(*rng.pick(&[0u64, next_id, 5000 + v]), v)); }
+        s.push(Step::Reply(*k, 0));
+        if rng.chance(1, 6) { s.push(Step::Reply(written[rng.below(i as u64 + 1) as usize], 1 + i as u64)); }
+    }
+    (c, s)
 }
 
 fn gen_cases(seed: u64, thorough: bool) -> Vec<String> {
@@ -570,6 +649,13 @@ fn gen_cases(seed: u64, thorough: bool) -> Vec<String> {
             let n = if i % 7 == 0 { 4 } else { rng.range(2, 3) };
             cases.push(render(kind, "probe", n, &probe_script(&mut rng, kind, n)));
         }
+    }
+    // forward_message with caller-supplied ids while calls are in flight (AsyncClient only)
+    let nfwd = if thorough { 1500 } else { 150 };
+    for _ in 0..nfwd {
+        let n0 = rng.range(1, 5);
+        let (n, sched) = fwd_script(&mut rng, n0);
+        cases.push(render("async", "probe", n, &sched));
     }
     cases.into_iter().enumerate().map(|(i, c)| format!("i={i} {c}")).collect()
 }
